@@ -134,3 +134,40 @@ def r6_join_sides(ctx):
 
 
 RULES += [r6_join_sides]
+
+
+def r7_inclusion_right_operand(ctx):
+    ctx.rule("C04.r7", "inclusion tests never over-approximate their RIGHT operand: powerset_domain::operator<= compares against the "
+             "disjuncts of `other` themselves, not against their join (smash)", floor=1)
+    PW = "include/crab/domains/powerset_domain.hpp"
+    fs = ctx.db.fns(PW, pk="crab::domains::powerset_domain::operator<=")
+    if not ctx.need(fs, "powerset_domain::operator<="):
+        return
+    for fn in fs:
+        body = fn["body"]
+        d = local_decls(body)
+
+        def from_other(e, depth=0):
+            for x in walk(e):
+                if is_param(x, fn, 0):
+                    return True
+                if x.get("k") == "ref" and x.get("rk") == "local" and depth < 4:
+                    dd = d.get(x.get("id")) or {}
+                    if "i" in dd and from_other(dd["i"], depth + 1):
+                        return True
+            return False
+        lossy = [n for n in walk(body) if n.get("k") == "call" and callee(n) and
+                 any(w in callee(n)["name"] for w in ("smash", "approx", "hull", "join")) and
+                 (any(from_other(a) for a in n.get("a", [])) or ("o" in n and from_other(n["o"])))]
+        joins = [n for n in walk(body) if n.get("k") == "call" and n.get("op") in ("|", "|=") and
+                 (any(from_other(a) for a in n.get("a", [])) or ("o" in n and from_other(n["o"])))]
+        if lossy or joins:
+            n0 = (lossy + joins)[0]
+            ctx.bad("powerset_domain::operator<= replaces its right operand by `%s` before comparing: the join of the disjuncts contains "
+                    "states that are in none of them, so the test can answer yes for a left operand that is not included" % src(n0)[:60],
+                    fn, n0, sig="inclusion-right-smashed")
+        else:
+            ctx.ok("operator<= compares with other's own disjuncts", fn, body)
+
+
+RULES += [r7_inclusion_right_operand]
